@@ -28,11 +28,11 @@ LEVEL_NOTE = ('Only cube packages fitted at tabulated wavelengths are covered (t
 RULE = ("cases: package configurations; executions: one plot() call per (n selected, display mode, input form), one evaluation per (fit, filter) point compared; non-trivial = distinct "
         "(configuration, n selected, mode, form) with more than one curve or more than one selected fit")
 ASSUMPTIONS = ["results come from cube packages fitted at tabulated wavelengths", "tolerance 2e-3 for the rounded physical constants"]
-REQUIRED_CLASSES = ['model-names-that-are-prefixes-of-one-another', 'largest-beam-beyond-the-table', 'law-queried-then-regridded-before-the-fit', 'whole-curve-identity', 'best-fit-exactly-tied', 'invalid-rows-before-selected-models', 'model-names-sharing-their-first-31-characters', 'mode-interp', 'mode-largest', 'mode-largest+smallest', 'mode-all', 'multi-aperture', 'single-aperture', 'mixed-theta', 'form-object', 'form-file', 'five-fits',
+REQUIRED_CLASSES = ['negative-reported-A_V', 'model-names-that-are-prefixes-of-one-another', 'largest-beam-beyond-the-table', 'law-queried-then-regridded-before-the-fit', 'whole-curve-identity', 'best-fit-exactly-tied', 'invalid-rows-before-selected-models', 'model-names-sharing-their-first-31-characters', 'mode-interp', 'mode-largest', 'mode-largest+smallest', 'mode-all', 'multi-aperture', 'single-aperture', 'mixed-theta', 'form-object', 'form-file', 'five-fits',
                     'distance-dependent', 'distance-independent', 'cube-wav-ascending', 'several-sources-one-call', 'apertures-stored-decreasing', 'cube-in-Jy', 'second-package-same-names', 'same-call-twice', 'law-in-other-unit', 'filter-wavelengths-in-mixed-units']
 TIMEOUT = {'quick': 600, 'thorough': 3000}
 
-AXES = {'n_ap': [3, 1], 'sord': ['wav-desc', 'wav-asc'], 'theta': ['mixed', 'uniform', 'wide'], 'memmap': [True, False], 'avr': [(0.0, 5.0), (2.0, 2.0)], 'ap_order': ['inc', 'dec'], 'funit': ['mJy', 'Jy'], 'wunit': ['micron', 'first-in-Angstrom'], 'law': ['power', 'nonmono@nm']}
+AXES = {'n_ap': [3, 1], 'sord': ['wav-desc', 'wav-asc'], 'theta': ['mixed', 'uniform', 'wide'], 'memmap': [True, False], 'avr': [(0.0, 5.0), (2.0, 2.0), (-3.0, -1.0)], 'ap_order': ['inc', 'dec'], 'funit': ['mJy', 'Jy'], 'wunit': ['micron', 'first-in-Angstrom'], 'law': ['power', 'nonmono@nm']}
 WAV = np.array([24.0, 8.0, 4.5, 2.2, 1.0])
 BANDS = [0, 2, 4]
 MODES = ['interp', 'largest', 'largest+smallest', 'all']
@@ -244,6 +244,8 @@ def run_case(ctx, case, rec, d):
         wq[2] = wq[2].to(u.mm)
         rec.cls('filter-wavelengths-in-mixed-units')
     try:
+        if case['avr'][1] < 0:
+            rec.cls('negative-reported-A_V')
         ft = Fitter(wq, np.array(theta) * u.arcsec, md, extinction_law=law, av_range=list(case['avr']),
                     distance_range=np.array([0.6, 2.5]) * u.kpc, use_memmap=case['memmap'])
     except Exception as e:
